@@ -5,6 +5,32 @@ V = os.path.dirname(os.path.dirname(os.path.abspath(__file__)))
 PY = "PYTHONPATH=/repo PYTHONHASHSEED=0 /venv/bin/python"
 
 CHECKS = {
+ "C08": dict(
+   text="Fault model of the sampling loop: for every sampler, thinning, event stream, fault site (every external call of the run, entry/exit of the "
+        "sample store of every proposal, time check after every proposal) and fault kind, the stored columns are the leading columns of the "
+        "fault-free run and contain everything stored during the proposals completed before the stop (induction over the event stream); outcome "
+        "(return vs re-raise of the same exception) and totality of the close arithmetic. Tie: exhaustive fault injection per short run on the real "
+        "samplers (both back ends), compared with the model (columns, outcome, final proposal index) and with the fault-free reference run, "
+        "print_details(), handle state and a second run on the same object.",
+   note="Trusted: Coq kernel; harness; Python's try/except/finally semantics are transcribed by hand into Model/Faults.v (handler) and checked only by "
+        "co-execution. Faults inside h5py/numpy I/O and inside _close_sampler are outside the modelled boundaries. One known finding (NPY, zero columns).",
+   technique="Coq proof (prefix theorem over fault model) + exhaustive fault injection co-execution", ref="5/C08"),
+ "C10": dict(
+   text="Five theorems over the container model for any column type, both back ends, every operation sequence and every clock script (arbitrary, incl. "
+        "decreasing and NaN): after close file = appended columns in order, buffer empty, write index = count; file content independent of the clock; "
+        "burn-in b read semantics and refusal iff b >= length; index ranges; combine. Tie: step-by-step co-execution with real hmclab.Samples objects "
+        "under a scripted wall clock (buffer length, interval, write index after every op; file; read queries; combine_samples).",
+   note="Trusted: Coq kernel; harness; h5py / numpy.load / AppendNPY persist float64 bits. Model is hand-written (Model/SamplesFile.v); the HDF5/NPY "
+        "libraries themselves are not modelled.",
+   technique="Coq proof (invariant file++buffer = appended over all op sequences) + step-by-step co-execution", ref="5/C10"),
+ "C11": dict(
+   text="Four theorems over a file-system model (version stamps): any sequence of operations without overwrite consent leaves every pre-existing "
+        "file unchanged; a write attempt on an existing path with otherwise valid arguments yields FileExistsError; no handle is left open; a "
+        "following valid run succeeds. Tie: generated sequences of sample() (valid / invalid at each of 15 validation stages), Samples(mode='w'), "
+        "copy, deepcopy, pickle, load_results on real objects; file identity, exception class and open HDF5 handles compared after every op.",
+   note="Trusted: Coq kernel; harness; file identity = (mtime_ns,size,sha256). The model abstracts validation to before-open / after-open stages; "
+        "the stage classification of each argument error is fixed in the harness and validated by the co-execution.",
+   technique="Coq proof (induction over op sequences of a file-system model) + co-execution with hashing", ref="5/C11"),
  "C02": dict(
    text="Nine theorems: the accept decision of the RWMH and HMC transition models equals u < exp(E_cur - E_prop) with E as the property states; "
         "state/misfit/counter after accept and reject; accepted counter = number of accepting transitions for every run (induction over the event "
